@@ -10,6 +10,8 @@ mod common;
 mod enc;
 mod gen;
 mod mon_a;
+mod mon_b;
+mod mon_c;
 mod mon_stream;
 mod prng;
 mod refdec;
@@ -34,11 +36,19 @@ fn limit_memory() {
 fn run_monitor(ctx: &Ctx) -> i32 {
     match ctx.prop.as_str() {
         "C01" => mon_a::run_c01(ctx),
+        "C02" => mon_b::run_c02(ctx),
         "C03" => mon_a::run_c03(ctx),
         "C04" => mon_a::run_c04(ctx),
+        "C07" => mon_c::run_c07(ctx),
+        "C08" => mon_b::run_c08(ctx),
         "C09" => mon_a::run_c09(ctx),
+        "C10" => mon_c::run_c10(ctx),
+        "C11" => mon_b::run_c11(ctx),
+        "C12" => mon_b::run_c12(ctx),
+        "C14" => mon_b::run_c14(ctx),
         "C13" => mon_a::run_c13(ctx),
         "C15" => mon_a::run_c15(ctx),
+        "C19" => mon_c::run_c19(ctx),
         other => {
             eprintln!("unknown property {other}");
             64
